@@ -67,6 +67,26 @@ def allowed(path, table):
     return any(re.search(p, path) for p in table)
 
 
+_CG = {}
+
+
+def _helper_of_ladder(F, path, depth=0, stack=()):
+    """a private function (not reachable from outside the crate, not a trait method) all of whose callers are enumerated ladder functions
+    or, transitively, such helpers: code factored out of a ladder is part of that ladder"""
+    from .. import callgraph
+    if id(F) not in _CG:
+        _CG[id(F)] = (callgraph.CallGraph(F), F)
+    G = _CG[id(F)][0]
+    node = G.nodes.get(path)
+    if node is None or depth > 3 or path in stack or node.d.get("reachable") or " as " in path.split("::{closure")[0]:
+        return False
+    callers = {s_ for s_, ds in G.edges.items() if path in ds} - {path}
+    if not callers:
+        return False
+    lad = [x for x, _ in LADDER]
+    return all(allowed(c_, lad) or _helper_of_ladder(F, c_, depth + 1, stack + (path,)) for c_ in callers)
+
+
 def run(ctx, FS):
     r1 = "R-07.1"
     ctx.rule(r1, "configuration dependence is confined to the enumerated cfg ladders (structural MIR hash per function across configurations)")
@@ -86,7 +106,7 @@ def run(ctx, FS):
             for p, s in sigs[base].items():
                 if p in sigs[k]:
                     compared += 1
-                    if sigs[k][p] != s and not allowed(p, [x for x, _ in LADDER]):
+                    if sigs[k][p] != s and not allowed(p, [x for x, _ in LADDER]) and not _helper_of_ladder(FS[base], p):
                         ctx.ob(r1, (p, "differs-between-configurations"), False,
                                "unexplained configuration dependence: %s has different MIR in %s and %s and is not an enumerated cfg ladder" % (p, base, k), cfg=k)
                 elif not allowed(p, PRESENCE):
